@@ -281,6 +281,14 @@ class Engine(
                     # query, since putting those in a subquery would destroy
                     # the ordering.
                     subquery = select.reapply_skip(sort=None, slice=None)
+                    if not select.sort.columns_required <= subquery.columns:
+                        # The existing Sort uses columns an earlier Projection
+                        # dropped before the Deduplication; they are not
+                        # available outside the subquery, and sorting inside it
+                        # would not survive.
+                        raise RelationalAlgebraError(
+                            f"Applying {operation} to relation {select} will not preserve row order."
+                        )
                     return Select.apply_skip(
                         subquery,
                         projection=operation,
